@@ -22,6 +22,8 @@ def run_profile(chk, profile, per_type, raw, feats):
     r = tv("Trace_Decode", "Trace_Decode.cfg", t, reset_events=("Decode",), prefix_events=("Config",), shards=12, tag="C02-" + profile)
     chk.add_tv("decode[%s]" % profile, r)
     for rj in r["rejects"]:
+        if recorder_level_reject(chk, rj):
+            continue
         d = rj["diag"]
         try:
             d = json.loads(d)
@@ -49,6 +51,14 @@ def run(chk):
                 tags[o["tag"]] = tags.get(o["tag"], 0) + 1
                 if o["out"] != "MsgNotSupported":
                     frames.add(hash(ln))
+        # "scanning for frames ... terminates": the scanner sessions of C05 (incl. tens of thousands of rejected candidates
+        # on a small stack, > 64 KiB buffers) in this profile as well
+        ts = record("scan", chk.path("scan-%s.ndjson" % profile), profile=profile, n=150 if q else 3000, seed=chk.seed + 11)
+        hang_violation(chk, ts, "next_msg_frame / MsgFrameIter [%s]" % profile)
+        rs = tv("Trace_Scan", "Trace_Scan.cfg", ts, shards=10, tag="C02-scan-" + profile)
+        chk.add_tv("scan[%s]" % profile, rs)
+        report_rejects(chk, rs, lambda ev, d: "[%s] %s consumed=%s at=%s" % (profile, ev.get("ev"), ev.get("consumed"), ev.get("at")),
+                       lambda ev, d: "[%s] scanner result differs from Scanner!ScanResult / panicked: %s" % (profile, json.dumps({k: v for k, v in ev.items() if k not in ("buf", "frame")})[:300]))
     chk.cov["distinct_nontrivial"] = len(frames)
     if (outs.get("Typed", 0) < 500 or outs.get("Corrupt", 0) < 500) and not chk.violations:
         chk.vacuity("vacuity: outcomes %s" % outs)
